@@ -15,4 +15,5 @@ let find (id : string) : sx -> sx =
   | "C08" -> model_C08
   | "C10" -> model_C10
   | "C18" -> model_C18
+  | "C20" -> model_C20
   | _ -> failwith ("no extracted model for " ^ id)
